@@ -10,7 +10,7 @@ import random
 
 import numpy as np
 
-from .common import all_sorted_tables_upto, coords_for, make_tree, random_sorted_table, tree_from_spec
+from .common import all_sorted_tables_upto, coords_for, make_tree, random_sorted_table
 
 RTOL = 1e-4
 ANGLE_ATOL_DEG = 0.05  # arccos is ill-conditioned at 0/180 degrees for float32 vectors
@@ -474,8 +474,8 @@ def tree_cases(tier, seed):
         for mode in ("lattice", "walk"):
             yield pid, coords_for(pid, mode=mode), mode
     rng = random.Random(seed)
-    for k in range(25 if tier == "quick" else 200):
-        n = rng.randint(8, 16)
+    for k in range(60 if tier == "quick" else 300):
+        n = rng.randint(7, 16)
         pid = random_sorted_table(rng, n)
         if k % 3 == 0:  # binary trees for the bifurcation-only measures
             pid = _random_binary(rng, n)
@@ -515,7 +515,7 @@ def run(ctx):
     if rep.count:
         ctx.notes.append(f"{rep.count} failing clause evaluations in total; at most 3 reported per (carrier, clause), smallest trees first")
     ctx.rule("every sorted parent table with <= %d nodes x {lattice coordinates with coincident points / zero-length segments, walk coordinates}, root type 1, "
-             "plus seeded random trees of 8-16 nodes (one third binary) with jittered coordinates; every clause against an independent loop implementation of the "
+             "plus seeded random trees of 7-16 nodes (one third binary) with jittered coordinates; every clause against an independent loop implementation of the "
              "definitions (Sholl at all half-integer radii up to rmax+1, mid-points between node radii, and step counts 1, 3, 20); seeded 3-tree populations. "
              "Non-trivial = at least one edge" % (6 if ctx.tier == "quick" else 7), exhaustive=False)
 
